@@ -497,12 +497,12 @@ pub async fn walk(cfg: &WalkCfg, ch: &mut dyn Choose) -> WalkOutcome {
                 let mut bytes = Vec::new();
                 for _ in 0..k {
                     if let Some(p) = pm.next_ack() {
-                        let seq = app.log(Ev::PeerSent(crate::map::brief(&p)));
+                        let seq = app.log_peer(&p);
                         pm.note_ack(seq, &p);
                         bytes.extend_from_slice(&crate::refcodec::encode(c.peer.ver, &p).unwrap());
                     }
                 }
-                c.peer.write_quiet(&bytes);
+                c.peer.write_part(&bytes);
                 if k > 1 {
                     stat!("batched_acks");
                 }
@@ -574,9 +574,9 @@ pub async fn walk(cfg: &WalkCfg, ch: &mut dyn Choose) -> WalkOutcome {
             break;
         }
         while let Some(p) = pm.next_ack() {
-            let seq = app.log(Ev::PeerSent(crate::map::brief(&p)));
+            let seq = app.log_peer(&p);
             pm.note_ack(seq, &p);
-            c.peer.write_quiet(&crate::refcodec::encode(c.peer.ver, &p).unwrap());
+            c.peer.write_part(&crate::refcodec::encode(c.peer.ver, &p).unwrap());
             // one ack per settle keeps "singly" delivery in the drain phase as well
             break;
         }
@@ -592,9 +592,9 @@ pub async fn walk(cfg: &WalkCfg, ch: &mut dyn Choose) -> WalkOutcome {
             c.settle().await;
             pm.absorb(&app);
             while let Some(p) = pm.next_ack() {
-                let seq = app.log(Ev::PeerSent(crate::map::brief(&p)));
+                let seq = app.log_peer(&p);
                 pm.note_ack(seq, &p);
-                c.peer.write_quiet(&crate::refcodec::encode(c.peer.ver, &p).unwrap());
+                c.peer.write_part(&crate::refcodec::encode(c.peer.ver, &p).unwrap());
             }
         }
         c.settle().await;
